@@ -294,3 +294,34 @@ impl Enc {
     }
 }
 
+/// Stub for `<Ipv4Addr as Display>::fmt` (paging harnesses): the dotted-decimal text
+/// written with plain digit arithmetic instead of core::fmt's padding machinery
+/// (whose Formatter options become symbolic after a copy and make CBMC explore the
+/// padding loops: the two-page harness did not finish in 40 minutes). Validated
+/// natively against std for all octet values (tests/validate.rs).
+pub fn stub_ipv4_fmt(ip: &std::net::Ipv4Addr, f: &mut core::fmt::Formatter<'_>) -> core::fmt::Result {
+    let o = ip.octets();
+    let mut buf = [0u8; 15];
+    let mut n = 0;
+    let mut i = 0;
+    while i < 4 {
+        let x = o[i];
+        if x >= 100 {
+            buf[n] = b'0' + x / 100;
+            n += 1;
+        }
+        if x >= 10 {
+            buf[n] = b'0' + (x / 10) % 10;
+            n += 1;
+        }
+        buf[n] = b'0' + x % 10;
+        n += 1;
+        if i < 3 {
+            buf[n] = b'.';
+            n += 1;
+        }
+        i += 1;
+    }
+    f.write_str(unsafe { core::str::from_utf8_unchecked(&buf[.. n]) })
+}
+
